@@ -145,6 +145,8 @@ J plan_to_json(const Plan& p) {
             o.set("pol", r.pol);
             o.set("meth", r.meth);
             o.set("body", r.body);
+            if (r.nonext)
+                o.set("nonext", r.nonext);
             o.set("vp", ints(r.vp));
             break;
         }
@@ -242,6 +244,7 @@ Plan plan_from_json(const J& j) {
             r.kind = RK_DEF;
             r.meth = (int)o.geti("meth", -1);
             r.body = (int)o.geti("body", -1);
+            r.nonext = (int)o.geti("nonext", 0);
             r.vp = o.at("vp").ints();
         } else
             throw std::runtime_error("bad rec kind");
